@@ -8056,25 +8056,37 @@ fn compare_wire_values(a: Option<&WireValue>, b: Option<&WireValue>) -> std::cmp
         (Some(va), Some(vb)) => match (va, vb) {
             (WireValue::Int64(a), WireValue::Int64(b)) => a.cmp(b),
             (WireValue::Int32(a), WireValue::Int32(b)) => a.cmp(b),
-            (WireValue::Float64(a), WireValue::Float64(b)) => {
-                a.partial_cmp(b).unwrap_or(std::cmp::Ordering::Equal)
-            }
+            (WireValue::Int32(a), WireValue::Int64(b)) => i64::from(*a).cmp(b),
+            (WireValue::Int64(a), WireValue::Int32(b)) => a.cmp(&i64::from(*b)),
             (WireValue::String(a), WireValue::String(b)) => a.cmp(b),
             (WireValue::Bool(a), WireValue::Bool(b)) => a.cmp(b),
             (WireValue::Timestamp(a), WireValue::Timestamp(b)) => a.cmp(b),
             (WireValue::Null, WireValue::Null) => std::cmp::Ordering::Equal,
             (WireValue::Null, _) => std::cmp::Ordering::Less,
             (_, WireValue::Null) => std::cmp::Ordering::Greater,
-            // Cross-type numeric comparison
-            (WireValue::Int64(a), WireValue::Float64(b)) => (*a as f64)
-                .partial_cmp(b)
-                .unwrap_or(std::cmp::Ordering::Equal),
-            (WireValue::Float64(a), WireValue::Int64(b)) => a
-                .partial_cmp(&(*b as f64))
-                .unwrap_or(std::cmp::Ordering::Equal),
-            // Cross-type: use type discriminant for stable ordering
-            _ => wire_value_type_rank(va).cmp(&wire_value_type_rank(vb)),
+            // Numbers of different kinds compare by value. NaN sorts after every
+            // number, so the comparison stays a total order whatever the rows hold.
+            _ => match (wire_value_as_f64(va), wire_value_as_f64(vb)) {
+                (Some(a), Some(b)) => match (a.is_nan(), b.is_nan()) {
+                    (true, true) => std::cmp::Ordering::Equal,
+                    (true, false) => std::cmp::Ordering::Greater,
+                    (false, true) => std::cmp::Ordering::Less,
+                    (false, false) => a.partial_cmp(&b).unwrap_or(std::cmp::Ordering::Equal),
+                },
+                // Cross-type: use type discriminant for stable ordering
+                _ => wire_value_type_rank(va).cmp(&wire_value_type_rank(vb)),
+            },
         },
+    }
+}
+
+/// Numeric view of a wire value (`None` for non-numeric kinds).
+fn wire_value_as_f64(v: &WireValue) -> Option<f64> {
+    match v {
+        WireValue::Int32(i) => Some(f64::from(*i)),
+        WireValue::Int64(i) => Some(*i as f64),
+        WireValue::Float64(f) => Some(*f),
+        _ => None,
     }
 }
 
